@@ -236,28 +236,6 @@ Proof.
   destruct (run vr s1 r) as [s2 os]. reflexivity.
 Qed.
 
-Lemma run_state_out : forall h tq0 ts0 aq as_,
-  run repaired (mkSys (denote aq tq0) (denote as_ ts0)) h =
-  (mkSys (denote (since Req aq h) tq0) (denote (since Res as_ h) ts0),
-   spec_run tq0 ts0 aq as_ h).
-Proof.
-  induction h as [|l r IH]; intros tq0 ts0 aq as_.
-  - reflexivity.
-  - rewrite run_cons.
-    destruct l as [k m|k|k| | |]; try destruct k; simpl;
-      rewrite ?traffic_denote, ?reset_denote, ?verify_denote, IH; reflexivity.
-Qed.
-
-Theorem query_exact_general : forall tq0 ts0 h,
-  initialb tq0 = true -> initialb ts0 = true ->
-  snd (run repaired (mkSys tq0 ts0) h) = spec_run tq0 ts0 [] [] h.
-Proof.
-  intros tq0 ts0 h Hq Hs.
-  rewrite <- (denote_nil_initial tq0 Hq) at 1.
-  rewrite <- (denote_nil_initial ts0 Hs) at 1.
-  rewrite run_state_out. reflexivity.
-Qed.
-
 Lemma compile_initial : forall k c t, compile k c = Some t -> initialb t = true.
 Proof.
   intros k. induction c as [v vt sq ss|sq ss|sq ss cs IH|f sq ss tb IHt|f sq ss tb e IHt IHe]
@@ -281,6 +259,39 @@ Proof.
   eapply compile_initial; eauto.
 Qed.
 
+Lemma run_state_out : forall h tq0 ts0 aq as_,
+  run repaired (mkSys (denote aq tq0) (denote as_ ts0)) h =
+  (mkSys (denote (since Req aq h) (current Req tq0 h)) (denote (since Res as_ h) (current Res ts0 h)),
+   spec_run tq0 ts0 aq as_ h).
+Proof.
+  induction h as [|l r IH]; intros tq0 ts0 aq as_.
+  - reflexivity.
+  - rewrite run_cons.
+    destruct l as [k m|k|k| | | |c]; try destruct k; simpl;
+      rewrite ?traffic_denote, ?reset_denote, ?verify_denote; try (rewrite IH; reflexivity).
+    unfold init.
+    assert (E : mkSys (root Req c) (root Res c) =
+                mkSys (denote [] (root Req c)) (denote [] (root Res c)))
+      by (rewrite !denote_nil_initial by apply root_initial; reflexivity).
+    rewrite E, IH. reflexivity.
+Qed.
+
+Lemma current_initial : forall k h t0, initialb t0 = true -> initialb (current k t0 h) = true.
+Proof.
+  intros k. induction h as [|l r IH]; intros t0 H; simpl; [exact H|].
+  destruct l; auto. apply IH. apply root_initial.
+Qed.
+
+Theorem query_exact_general : forall tq0 ts0 h,
+  initialb tq0 = true -> initialb ts0 = true ->
+  snd (run repaired (mkSys tq0 ts0) h) = spec_run tq0 ts0 [] [] h.
+Proof.
+  intros tq0 ts0 h Hq Hs.
+  rewrite <- (denote_nil_initial tq0 Hq) at 1.
+  rewrite <- (denote_nil_initial ts0 Hs) at 1.
+  rewrite run_state_out. reflexivity.
+Qed.
+
 Theorem query_exact : forall c h, model_outputs repaired c h = spec_outputs c h.
 Proof.
   intros c h. unfold model_outputs, spec_outputs, init.
@@ -291,7 +302,7 @@ Qed.
 Theorem state_since : forall tq0 ts0 h,
   initialb tq0 = true -> initialb ts0 = true ->
   fst (run repaired (mkSys tq0 ts0) h) =
-  mkSys (denote (since Req [] h) tq0) (denote (since Res [] h) ts0).
+  mkSys (denote (since Req [] h) (current Req tq0 h)) (denote (since Res [] h) (current Res ts0 h)).
 Proof.
   intros tq0 ts0 h Hq Hs.
   rewrite <- (denote_nil_initial tq0 Hq) at 1.
@@ -301,18 +312,25 @@ Qed.
 
 Theorem reset_all : forall tq0 ts0 h,
   initialb tq0 = true -> initialb ts0 = true ->
-  fst (step repaired (fst (run repaired (mkSys tq0 ts0) h)) Reset) = mkSys tq0 ts0.
+  fst (step repaired (fst (run repaired (mkSys tq0 ts0) h)) Reset) =
+  mkSys (current Req tq0 h) (current Res ts0 h).
 Proof.
   intros tq0 ts0 h Hq Hs. rewrite state_since by assumption. simpl.
-  rewrite !reset_denote, !denote_nil_initial by assumption. reflexivity.
+  rewrite !reset_denote, !denote_nil_initial by (apply current_initial; assumption). reflexivity.
 Qed.
+
+(* a reconfiguration installs exactly the new configuration, both sides, initial *)
+Theorem configure_replaces_both : forall vr s c,
+  fst (step vr s (Configure c)) = mkSys (root Req c) (root Res c).
+Proof. reflexivity. Qed.
 
 Theorem reset_kind : forall tq0 ts0 h k,
   initialb tq0 = true -> initialb ts0 = true ->
-  get k (fst (step repaired (fst (run repaired (mkSys tq0 ts0) h)) (ResetK k))) = get k (mkSys tq0 ts0).
+  get k (fst (step repaired (fst (run repaired (mkSys tq0 ts0) h)) (ResetK k))) =
+  get k (mkSys (current Req tq0 h) (current Res ts0 h)).
 Proof.
   intros tq0 ts0 h k Hq Hs. rewrite state_since by assumption.
-  destruct k; simpl; rewrite reset_denote, denote_nil_initial by assumption; reflexivity.
+  destruct k; simpl; rewrite reset_denote, denote_nil_initial by (apply current_initial; assumption); reflexivity.
 Qed.
 
 (* ------------------------------------------------------------------ *)
@@ -338,7 +356,7 @@ Proof.
   unfold drop_api in *. simpl filter.
   destruct (not_api_traffic l) eqn:E.
   - rewrite !run_cons, !IH. reflexivity.
-  - destruct l as [k m|k|k| | |]; simpl in E; try discriminate.
+  - destruct l as [k m|k|k| | | |c0]; simpl in E; try discriminate.
     apply negb_false_iff in E.
     rewrite (run_cons repaired s (Traffic k m) r). simpl.
     rewrite traffic_api_id, set_get by assumption.
@@ -765,10 +783,13 @@ Proof.
     destruct (run vr s r); reflexivity.
 Qed.
 
-Theorem refused_spec : forall c h, spec_outputs c (drop_refused h) = spec_outputs c h.
+Lemma refused_spec_run : forall h tq0 ts0 aq as_,
+  spec_run tq0 ts0 aq as_ (drop_refused h) = spec_run tq0 ts0 aq as_ h.
 Proof.
-  intros c h. unfold spec_outputs. generalize (@nil msg) at 1 3. generalize (@nil msg).
-  induction h as [|l r IH]; intros aq as_; [reflexivity|].
+  induction h as [|l r IH]; intros tq0 ts0 aq as_; [reflexivity|].
   unfold drop_refused in *. simpl filter.
-  destruct l as [[] m|[]|[]| | |]; simpl; rewrite ?IH; reflexivity.
+  destruct l as [[] m|[]|[]| | | |c0]; simpl; rewrite ?IH; reflexivity.
 Qed.
+
+Theorem refused_spec : forall c h, spec_outputs c (drop_refused h) = spec_outputs c h.
+Proof. intros. apply refused_spec_run. Qed.
